@@ -40,6 +40,12 @@ impl Read for ScriptReader {
 /// an ARBITRARY reachable reader state: pos <= cap <= capacity, source cursor at abs_pos + cap,
 /// empty_last_read only if the source is at its end.
 fn any_state<const LM: usize, const EXTRA: usize>() -> (LowMarkBufReader<ScriptReader>, usize, usize) {
+    any_state_w::<LM, EXTRA>(false)
+}
+
+/// `back`: the watched offset may also lie BEFORE the read position (but inside the buffered window): every buffered byte
+/// buf[0..cap) is the source's byte at abs_pos + index (representation invariant of the window, needed for backward seeks)
+fn any_state_w<const LM: usize, const EXTRA: usize>(back: bool) -> (LowMarkBufReader<ScriptReader>, usize, usize) {
     // low mark and capacity are CONCRETE per instance (a buffer of symbolic size costs CBMC > 17 GB: probed).
     // Instances cover low mark < cache line, == cache line and > cache line (the production setting: low mark 65555 >> 4096):
     // (1, 0), (4, 3), (8, 0), (10, 0) with the cache line scaled to 8; the unwind bound 13 covers a fill that needs 10 one-byte reads
@@ -60,7 +66,7 @@ fn any_state<const LM: usize, const EXTRA: usize>() -> (LowMarkBufReader<ScriptR
     r.empty_last_read = elr;
     // watch cell: either already buffered (value = buffer content) or still to be delivered by the source
     let w: usize = kani::any();
-    kani::assume(w >= abs_pos + pos && w < src_len);
+    kani::assume(w >= if back { abs_pos } else { abs_pos + pos } && w < src_len);
     unsafe {
         WATCH = w;
         WATCH_SET = false;
@@ -194,6 +200,38 @@ pub fn fmt_stub(_args: std::fmt::Arguments<'_>) -> String {
     String::new()
 }
 
+/// B1e backward seek after a fill (compaction included): whatever position seek() ACCEPTS must deliver the source's byte
+/// of that position. (Two sub-agents writing seeded changes independently pointed at this: after a compaction with a
+/// non-zero alignment offset, buf[0..offset) is stale but still inside the range seek() accepts.)
+fn c04_b1_seek_back_after_fill<const LM: usize, const EXTRA: usize>() {
+    let (mut r, src_len, w) = any_state_w::<LM, EXTRA>(true);
+    let abs0 = r.abs_pos;
+    let _ = r.fill_buf().unwrap().len();
+    let compacted = r.abs_pos > abs0;
+    match r.seek(std::io::SeekFrom::Start(w as u64)) {
+        Ok(p) => {
+            assert_eq!(p as usize, w);
+            assert_eq!(r.abs_pos + r.pos, w);
+            let out = r.fill_buf().unwrap();
+            if !out.is_empty() {
+                unsafe {
+                    assert!(WATCH_SET);
+                    assert_eq!(out[0], WATCH_VAL); // the byte at the accepted position is the source's byte
+                }
+            } else {
+                assert!(w == src_len);
+            }
+        }
+        Err(e) => {
+            // refusing is fine for positions that are no longer (or not yet) buffered
+            assert!(w < r.abs_pos || w > r.abs_pos + r.cap || compacted);
+            std::mem::forget(e);
+        }
+    }
+    kani::cover!(compacted && w < r.abs_pos + r.pos, "backward seek after a compaction");
+    kani::cover!(!compacted && w < abs0 + 1, "seek back to the start of the window");
+}
+
 macro_rules! lmbr_h {
     ($name:ident, $f:ident, $lm:expr, $extra:expr) => {
         #[kani::proof]
@@ -213,4 +251,6 @@ lmbr_h!(c04_b1_consume_lm10_x0, c04_b1_consume_step, 10, 0);
 lmbr_h!(c04_b1_read_lm4_x3, c04_b1_read_step, 4, 3);
 lmbr_h!(c04_b1_read_lm10_x0, c04_b1_read_step, 10, 0);
 lmbr_h!(c04_b1_seek_lm4_x3, c04_b1_seek_step, 4, 3);
+lmbr_h!(c04_b1_seekback_lm4_x3, c04_b1_seek_back_after_fill, 4, 3);
+lmbr_h!(c04_b1_seekback_lm10_x0, c04_b1_seek_back_after_fill, 10, 0);
 lmbr_h!(c04_b1_seek_lm10_x0, c04_b1_seek_step, 10, 0);
